@@ -1255,10 +1255,17 @@ class InBodyPhase(Phase):
         else:
             self.parser.phase = self.parser.phases["inSelect"]
 
-    def startTagRpRt(self, token):
+    def startTagRbRtc(self, token):
         if self.tree.elementInScope("ruby"):
             self.tree.generateImpliedEndTags()
             if self.tree.openElements[-1].name != "ruby":
+                self.parser.parseError()
+        self.tree.insertElement(token)
+
+    def startTagRpRt(self, token):
+        if self.tree.elementInScope("ruby"):
+            self.tree.generateImpliedEndTags("rtc")
+            if self.tree.openElements[-1].name not in ("ruby", "rtc"):
                 self.parser.parseError()
         self.tree.insertElement(token)
 
@@ -1637,6 +1644,7 @@ class InBodyPhase(Phase):
         ("noscript", startTagNoscript),
         (("noembed", "noframes"), startTagRawtext),
         ("select", startTagSelect),
+        (("rb", "rtc"), startTagRbRtc),
         (("rp", "rt"), startTagRpRt),
         (("option", "optgroup"), startTagOpt),
         (("math"), startTagMath),
